@@ -91,6 +91,14 @@ func c18Gen(rng *verifsim.RNG, idx int, tier string) *Plan {
 		}
 		p.Actions = append(p.Actions, a)
 	}
+	if rng.Bool(0.3) {
+		// the connection is re-established in between (link down): the monitor
+		// must go on describing what arrives on the new one
+		p.Class = "reinit"
+		for i, k := 0, rng.Range(1, 2); i < k; i++ {
+			p.Actions = append(p.Actions, Action{At: rng.Int63n(t+1) + 500, Kind: "link", If: "eth0", Oper: "down"})
+		}
+	}
 	p.Horizon = t + 2*nsSec
 	return p
 }
@@ -209,6 +217,27 @@ func c18Oracle(info *runInfo, res *verifsim.Result) {
 		if e.K == "task.exit" && taskIface(e.S) == ifn && (stopSeq == 0 || e.Seq < stopSeq) {
 			res.Violate("C18.fail", "stopped", "%s: monitor ended at %s: %s", ifn, ms(e.T), e.Err)
 		}
+	}
+	// every message delivered to the interface's socket (well before the stop) is handled
+	delivered, handled := 0, 0
+	for i := range h.ev {
+		e := &h.ev[i]
+		if (e.K == "act.ra" || e.K == "act.rs" || e.K == "act.ns" || e.K == "act.na") && e.If == ifn && e.Err == "" && (stopSeq == 0 || e.Seq < stopSeq) {
+			delivered++
+		}
+	}
+	for _, g := range h.gens {
+		for _, r := range g.rxs {
+			if stopSeq == 0 || r.seq < stopSeq {
+				handled++
+			}
+		}
+	}
+	if handled < delivered {
+		res.Violate("C18.fail", "unhandled", "%s: %d messages were delivered to the monitoring socket but only %d were ever read and described", ifn, delivered, handled)
+	}
+	if len(h.gens) > 1 {
+		res.Probe("reinitialised")
 	}
 	res.Nontrivial = nRA >= 1
 }
